@@ -298,6 +298,11 @@ class TGen:
                 vals = [rng.choice(FLOATS) if k == "f" else rng.randint(0, 5) for _ in range(n)]
             fk = rng.randint(0, max(0, n - 1)) if (self.cfg.get("faults") and rng.random() < 0.25) else None
             return ("setcol", tid, col, k, tuple(vals), rng.choice(["item", "attr"]), fk)
+        if kind == "setcol_b":
+            num = [c for c in m.cols if kd.get(c) in ("f", "i") and c != m.index]
+            if not num or n < 2:
+                return None
+            return ("setcol_b", tid, rng.choice(num), rng.randint(-3, 9), rng.choice(["scalar", "0d", "1el"]))
         if kind == "labelcol":
             self.newcol += 1
             return ("labelcol", tid, "lab%d" % self.newcol)
@@ -371,6 +376,11 @@ class TGen:
                     m.scalars.pop(col, None)
                     self.kinds[tid][col] = k
                 m.data[col] = list(vals)
+            elif kind == "setcol_b":
+                _, tid, col, value, form = op
+                m = M[tid]
+                if col in m.cols and self.kinds[tid].get(col) in ("f", "i") and m.n() >= 2 and col != m.index:
+                    m.data[col] = [float(int(value)) if self.kinds[tid][col] == "f" else int(value)] * m.n()
             elif kind == "labelcol":
                 _, tid, col = op
                 m = M[tid]
